@@ -10,6 +10,9 @@ import sys
 import time
 
 
+HOST_ZONES = ["UTC0", "EST5EDT,M3.2.0,M11.1.0", "IST-5:30", "NZST-12NZDT,M9.5.0,M4.1.0/3", "<-11>11", "CET-1CEST,M3.5.0,M10.5.0/3", "<+1245>-12:45", "UTC0"]
+
+
 def repo_root():
     return os.path.realpath(os.environ.get("VF_REPO", "/repo"))
 
@@ -32,6 +35,17 @@ def main(argv):
     replay_path = argv[7] if len(argv) > 7 else None
     seed, shard, nshards = int(seed), int(shard), int(nshards)
     faulthandler.enable()
+    # the host's time zone is part of the environment the properties quantify over silently: every shard runs under another one
+    # (POSIX TZ strings: no tz database needed).  VF_TZ overrides; a replay uses the zone recorded in the case.
+    tz = os.environ.get("VF_TZ") or HOST_ZONES[(seed + shard) % len(HOST_ZONES)]
+    if replay_path:
+        try:
+            with open(replay_path) as f:
+                tz = json.load(f).get("host_tz") or tz
+        except Exception:  # noqa
+            pass
+    os.environ["TZ"] = tz
+    time.tzset()
     from vf.core.ctx import Ctx, format_exc
 
     replay_case = None
@@ -39,6 +53,8 @@ def main(argv):
         with open(replay_path) as f:
             replay_case = json.load(f)
     ctx = Ctx(prop, tier, seed, shard, nshards, scratch, replay_case)
+    ctx.host_tz = tz
+    ctx.add("host_time_zones", tz)
     budget = float(os.environ.get("VF_SHARD_BUDGET_S", "0") or 0)
     if budget:
         ctx.deadline = time.time() + budget
